@@ -52,32 +52,43 @@ AREAS["C06"] = {
                   "the walk set of the theorems (C06_spec_is_closure)",
 }
 
-AREAS["C13"] = {
-        "area": "c13", "id": 13, "coq": ["Base", "Rule", "Properties/C13.v"],
-        "rule": "seeded generator: rule with 1-4 conditions (point-value number/onOff/text with every operator, also unknown operators "
-                "and value types; node/type/key filters empty or set; schedule conditions incl. unparsable ones; unknown condition "
-                "types), 0-3 set-value actions and inactive-actions (targets incl. the rule itself, missing node/type, unknown action), "
-                "stale active/error fields; history of 1-10 batches of 1-5 points from listening and foreign nodes, values equal to / one "
-                "ulp beside / across each threshold, NaN, +-0, +-Inf, texts equal to / containing / a prefix of the condition text, trigger "
-                "points within 1 s and 1 ns of schedule boundaries; plus 300 float comparison pairs (thorough: also the full grid value type x operator x filter combination x value relation for one condition and one point, and all ordered pairs of special floats); a history is non-trivial when some "
-                "condition or the rule changes state in it; distinct by SHA-1 of (mode, rule, batches)",
-        "trusted": ["model of ruleProcessPoints / processError / ruleRunActions / ruleInactiveActions / the run closure: "
-                    "coq/theories/Rule/Model.v (hand-written, tied by this run's correspondence)",
-                    "hook client/verif_rule.go (build tag verif, add-only): VerifRuleRun feeds one batch into the real Run loop, "
-                    "VerifRuleProcess calls ruleProcessPoints, VerifRuleScheduleActive evaluates a condition's schedule",
-                    "float64 comparison on bit patterns (f_lt, f_eq, f_nan in Rule/Model.v), compared with Go's operators on every run"],
-        "level_text": "proof: C13_conditions, C13_conditions_history, C13_rule_active, C13_actions_once are Coq theorems about the "
-                      "executable model of the rule client for every rule, window function and history; the model is run against "
-                      "the real RuleClient (Run loop and ruleProcessPoints, in-process NATS server, all sent points captured) on "
-                      ">1000 generated histories per run and must agree on every configuration and every point sent",
-        "level_note": "trusted: Coq kernel, extraction, OCaml driver, the Go harness, the in-process NATS server used to capture "
-                      "points; the schedule window test is a parameter (the real activeForTime result is supplied per trigger point; "
-                      "its correctness is C14); notify and playAudio actions and the empty-batch (configuration change) path of run "
-                      "are outside the model",
-        "assumptions": ["publishing a point never fails (connected NATS client, valid UTF-8 strings, node ids usable as subject tokens)",
-                        "one batch is handled at a time (the Run loop is single-threaded)",
-                        "actions are of the set-value kind or unknown; notify / playAudio are not modelled"],
-    }
+AREAS["C13"] = {'area': 'c13',
+ 'id': 13,
+ 'coq': ['Base', 'Rule', 'Properties/C13.v'],
+ 'rule': 'seeded generator: rule with 1-4 conditions (point-value number/onOff/text with every operator, also unknown operators and value types; '
+         'node/type/key filters empty or set; schedule conditions incl. unparsable ones; unknown condition types), 0-3 set-value actions and '
+         'inactive-actions (targets incl. the rule itself, missing node/type, unknown action), stale active/error fields; history of 1-10 batches of '
+         '1-5 points from listening and foreign nodes, values equal to / one ulp beside / across each threshold, NaN, +-0, +-Inf, texts equal to / '
+         'containing / a prefix of the condition text, trigger points within 1 s and 1 ns of schedule boundaries; plus 550 histories of 1-4 steps '
+         'through the configuration-change path of Run (kind config, 14 % of the cases: the first step and 65 % of the later ones hand points for '
+         "the rule node or a child to the running client as the manager does -- rule / child description, a schedule's start / end placed hours "
+         "around or away from the clock, a point condition's value / valueText / operator, an action's value / valueText, unknown or empty node id "
+         '-- the other steps are batches; rules with and without schedule conditions, point conditions that the trigger point does or does not '
+         'reach, stored condition / rule / action flags mostly stale so that the state flips on this path with the opposite list still marked '
+         'active; the clock is read before and after each such step and the step repeated unless both readings lie in one UTC minute); plus 300 '
+         'float comparison pairs (thorough: also the full grid value type x operator x filter combination x value relation for one condition and one '
+         'point, and all ordered pairs of special floats); a history is non-trivial when some condition or the rule changes state in it; distinct by '
+         'SHA-1 of (kind, mode, rule, steps)',
+ 'trusted': ['model of ruleProcessPoints / processError / ruleRunActions / ruleInactiveActions / the run closure: coq/theories/Rule/Model.v '
+             "(hand-written, tied by this run's correspondence)",
+             'hook client/verif_rule.go (build tag verif, add-only): VerifRuleRun feeds one batch into the real Run loop, VerifRuleRunConfig feeds '
+             'points into the channel newPoints of the real Run loop (configuration change), VerifRuleProcess calls ruleProcessPoints, '
+             "VerifRuleScheduleActive evaluates a condition's schedule",
+             "float64 comparison on bit patterns (f_lt, f_eq, f_nan in Rule/Model.v), compared with Go's operators on every run"],
+ 'level_text': 'proof: C13_conditions, C13_conditions_history, C13_rule_active, C13_actions_once and, for the configuration-change path of Run '
+               '(merge of new points for the rule or a child, then run("", nil)), C13_config_change_conditions, C13_config_change_rule_active, '
+               'C13_config_change_actions, C13_config_change_always are Coq theorems about the executable model of the rule client for every rule, '
+               'window function, history and configuration-change event; the model is run against the real RuleClient (Run loop through both '
+               'channels newRulePoints and newPoints, and ruleProcessPoints, in-process NATS server, all sent points captured) on >1000 generated '
+               'histories per run and must agree on every configuration and every point sent',
+ 'level_note': 'trusted: Coq kernel, extraction, OCaml driver, the Go harness, the in-process NATS server used to capture points; the schedule '
+               'window test is a parameter (the real activeForTime result is supplied per trigger point; its correctness is C14; on the '
+               'configuration-change path the trigger time is the clock read inside Run, bracketed by the harness within one UTC minute, and an '
+               'edited schedule is a fresh opaque handle); notify and playAudio actions, edge points (newEdgePoints) and merges other than '
+               'description / value / valueText / operator / start / end points are outside the model',
+ 'assumptions': ['publishing a point never fails (connected NATS client, valid UTF-8 strings, node ids usable as subject tokens)',
+                 'one batch is handled at a time (the Run loop is single-threaded)',
+                 'actions are of the set-value kind or unknown; notify / playAudio are not modelled']}
 
 AREAS["C14"] = {'area': 'c14',
  'id': 14,
@@ -551,4 +562,4 @@ AREAS["C08"] = {'area': 'c08',
 
 WIP = "not yet built in this round; the design (DESIGN.md section 6) claims it and the check is being added"
 NOT_CLAIMED = {pid: WIP for pid in ["C%02d" % i for i in range(1, 21)] if pid not in AREAS}
-HOOK_COMMITS = ["6f869d9", "e935e32"]
+HOOK_COMMITS = ["6f869d9", "e935e32", "bce5a7c"]
